@@ -144,11 +144,45 @@ def handle (toks : List String) : Option String :=
       match n.toNat?, Fp.parse q, parseSig Fp.parse rest with
       | some n, some q, some ts => toString (dftSum (fun i => sigVal ts (Int.ofNat i)) q n)
       | _, _, _ => "bad-op"
+  -- spec: values of the sequence in F_P
+  | "sig.valsfp" :: n0 :: n1 :: "|" :: rest => some <| Id.run do
+      match n0.toInt?, n1.toInt?, parseSig Fp.parse rest with
+      | some n0, some n1, some ts =>
+        listStr toString ((List.range (n1 - n0 + 1).toNat).map fun (i : Nat) => sigVal ts (n0 + Int.ofNat i))
+      | _, _, _ => "bad-op"
   -- spec: the defining sum for a literal list of F_P values (used for IDFT(DFT x) = x:  Σ_k X[k] q^k)
   | ["dft.sumlit", q, vs] => some <| Id.run do
       match Fp.parse q, parseList Fp.parse vs with
       | some q, some vs => toString (dftSum (fun i => vs.getD i 0) q vs.length)
       | _, _ => "bad-op"
+  -- model: samples of initial_response (zdomain_initial_response expanded by long division)
+  | ["ini.model", n, b, a, ic, xic] => some <| Id.run do
+      match n.toNat?, parseList parseCRat b, parseList parseCRat a, parseList parseCRat ic, parseList parseCRat xic with
+      | some n, some b, some a, some ic, some xic => listStr toString (series (iniNum b a ic xic) a n)
+      | _, _, _, _, _ => "bad-op"
+  -- model: Sequence.lfilter(b, a) on the value list x (Python list semantics)
+  | ["lf.model", b, a, x] => some <| Id.run do
+      match parseList parseCRat b, parseList parseCRat a, parseList parseCRat x with
+      | some b, some a, some x => listStr toString (lfilterPy b a x)
+      | _, _, _ => "bad-op"
+  -- model: Sequence.convolve (values only; the first index is x.n[0] + h.n[0])
+  | ["conv.model", x, h] => some <| Id.run do
+      match parseList parseCRat x, parseList parseCRat h with
+      | some x, some h => listStr toString (convolvePy x h)
+      | _, _ => "bad-op"
+  -- spec: y (first index y0) is the convolution of x (first index x0) and h (first index h0), checked on a
+  -- window that extends 2 samples beyond every support
+  | ["conv.spec", y0, ys, x0, xs, h0, hs] => some <| Id.run do
+      match y0.toInt?, parseList parseRat ys, x0.toInt?, parseList parseRat xs, h0.toInt?, parseList parseRat hs with
+      | some y0, some ys, some x0, some xs, some h0, some hs =>
+        let lo := min y0 (x0 + h0) - 2
+        let len := (max (y0 + ys.length) (x0 + h0 + xs.length + hs.length) + 2 - lo).toNat
+        match (List.range len).find? (fun (i : Nat) =>
+            let n := lo + Int.ofNat i
+            !(decide (litVal ys y0 n = convAt hs (litVal xs x0) (n - h0)))) with
+        | none => "ok"
+        | some j => s!"fail {lo + Int.ofNat j}"
+      | _, _, _, _, _, _ => "bad-op"
   | _ => none
 
 end Lcapy.Driver.C13
